@@ -36,7 +36,7 @@ SPEC = dict(
     ],
 )
 
-WEIGHTS = [1.0, -2.0, 3.0]
+WEIGHTS = [3.0, -2.0, 5.0]  # no weight equals 1: a single task must still be weighted
 
 
 def gen_cases(tier, seed):
@@ -79,6 +79,7 @@ def _configs(nt, around):
         cfgs.append((ident[::-1], "default", "own", "upgrad-pref", 1, "float64"))
         cfgs.append((ident, "all", "default", "mean", None, "float64"))
     cfgs.append((ident, "deps", "extra", "const", None, "float64"))
+    cfgs.append((ident, "none", "own", "const", None, "float64"))  # explicit empty shared_params: heads still get their gradients
     cfgs.append((ident, "all", "own", "upgrad-pref", None, "float64"))
     if nt >= 3:
         cfgs.append((ident, "all", "own", "krum", 2, "float64"))
@@ -141,6 +142,8 @@ def run_case(case):
             shared_idx = list(grad_leaves)[::-1]
         elif smode == "deps":
             shared_idx = list(dep_leaves)
+        elif smode == "none":
+            shared_idx = []
         else:
             shared_idx = None
         eff_shared = dep_leaves if shared_idx is None else shared_idx
@@ -281,7 +284,7 @@ def run_case(case):
             off = 0
             for l in eff_shared:
                 n = t.numel(l)
-                e = float(np.abs(exp[off:off + n].reshape(t.shapes[l]) - delta[("leaf", l)]).max()) / (tol * 3.0 * scale * 8)
+                e = float(np.abs(exp[off:off + n].reshape(t.shapes[l]) - delta[("leaf", l)]).max()) / (tol * 5.0 * scale * 8)
                 maxima["const"] = max(maxima.get("const", 0.0), e)
                 if e > 1:
                     viol.append(dict(sig="constant-weights-value-mismatch", cls="constvalue",
